@@ -63,6 +63,7 @@ NdOK(e) ==
   /\ e.q = NLSFDecode(e.cb, e.ix)
   /\ NlsfClauses(e.cb, e.q)
   /\ Len(e.a) = CB(e.cb).order
+  /\ NLSF2AMatches(e.a, e.q)                      \* the normative NLSF-to-LPC conversion, Q12 values inside 16 bits before the cast
   /\ e.s >= MinInvGainQ30
 
 \* silk_NLSF_stabilize called directly on synthetic vectors (not reachable from a bitstream): reference only
@@ -89,6 +90,11 @@ DpOK(e) ==
      \/ NlsfClauses(e.cb, e.pn)                    \* else it is a vector this decoder produced earlier
   /\ Len(e.a0) = o /\ Len(e.a1) = o
   /\ (e.ip = 4 \/ e.ffr = 1) => e.a0 = e.a1       \* no interpolation: both halves use the same filter
+  /\ IsBit(e.loss)
+  /\ IF e.loss = 1 THEN NLSF2AMatchesLoss(e.a1, e.q) ELSE NLSF2AMatches(e.a1, e.q)
+  /\ (e.ip < 4 /\ e.ffr = 0) =>                   \* first half: filter of the interpolated vector
+        LET q0 == NLSFInterp(e.pn, e.q, e.ip) IN
+        IF e.loss = 1 THEN NLSF2AMatchesLoss(e.a0, q0) ELSE NLSF2AMatches(e.a0, q0)
   /\ e.s0 >= MinInvGainQ30 /\ e.s1 >= MinInvGainQ30
   /\ IF e.st = 2
      THEN /\ e.ci \in 0..(NContours(e.fs, e.n) - 1)
@@ -96,12 +102,49 @@ DpOK(e) ==
           /\ \A k \in 1..e.n : e.pl[k] >= MinLag(e.fs) /\ e.pl[k] <= MaxLag(e.fs)
      ELSE e.pl = Zeros(e.n)
 
+\* silk_decode_indices on random range-coder input: whatever the bitstream holds, the indices it yields lie in the
+\* domains over which the model is checked (this binds the antecedent "index values a bitstream can carry")
+DiOK(e) ==
+  /\ e.fs \in FsSetKHz /\ e.n \in {2, 4} /\ e.cc \in {0, 1, 2} /\ e.f \in 0..(MaxFramesPerPacket - 1)
+  /\ (e.f = 0 => e.cc # 2)
+  /\ e.st \in 0..2 /\ Len(e.gi) = e.n
+  /\ \A k \in 1..e.n : GainIndexOK(e.gi[k], (k > 1) \/ e.cc = 2)
+  /\ NLSFIndexOK(IF e.fs = 16 THEN 1 ELSE 0, e.ix)
+  /\ e.ip \in 0..4 /\ (e.n = 2 => e.ip = 4)
+  /\ (e.st = 2) =>
+        /\ e.ci \in 0..(NContours(e.fs, e.n) - 1)
+        /\ \/ e.li \in 0..MaxAbsLagIndex(e.fs)
+           \/ (e.cc = 2 /\ e.pst = 2 /\ (e.li - e.pli) \in LagDeltaSet)
+        /\ e.li \in (-8 * e.f)..(MaxAbsLagIndex(e.fs) + 11 * e.f)
+        /\ e.oli = e.li
+  /\ e.ost = e.st
+
+\* encoder side, NLSF: what silk_NLSF_encode emits is codable, and the vector it keeps as "quantised" is what the
+\* decoder reconstructs from those indices
+NeOK(e) ==
+  /\ IsBit(e.cb) /\ NLSFIndexOK(e.cb, e.ix)
+  /\ e.qe = e.qd
+  /\ e.qd = NLSFDecode(e.cb, e.ix)
+  /\ NlsfClauses(e.cb, e.qd)
+
+\* encoder side, pitch: for a frame the analyser calls voiced, the indices it will send are codable in absolute form
+\* and decode to exactly the lags it will use itself
+PaOK(e) ==
+  /\ e.fs \in FsSetKHz /\ e.n \in {2, 4} /\ IsBit(e.v)
+  /\ (e.v = 1) =>
+        /\ e.li \in 0..MaxAbsLagIndex(e.fs)
+        /\ e.ci \in 0..(NContours(e.fs, e.n) - 1)
+        /\ e.po = PitchLags(e.li, e.ci, e.fs, e.n)
+
 CaseOK == LET e == Tr[l] IN
           IF e.k = "gd" THEN GdOK(e)
           ELSE IF e.k = "gq" THEN GqOK(e)
           ELSE IF e.k = "pl" THEN PlOK(e)
           ELSE IF e.k = "nd" THEN NdOK(e)
           ELSE IF e.k = "dp" THEN DpOK(e)
+          ELSE IF e.k = "di" THEN DiOK(e)
+          ELSE IF e.k = "ne" THEN NeOK(e)
+          ELSE IF e.k = "pa" THEN PaOK(e)
           ELSE IF e.k = "ns" THEN TRUE
           ELSE FALSE
 
